@@ -23,6 +23,7 @@ type FSNode struct {
 	Content string // "empty", "partial:<hash>", "full:<hash>"
 	Mode    uint32
 	Temp    bool
+	Data    []byte // prior files only: what ReadFile returns
 }
 
 type FSEvent struct {
@@ -36,6 +37,9 @@ type FSEvent struct {
 // FSModel is the per-path filesystem state.
 type FSModel struct {
 	Nodes      map[string]*FSNode // key: path text (concrete string, or term text for symbolic paths)
+	Prior      map[string]*FSNode // files that existed before the run (same keys); Nodes overrides
+	Removed    map[string]bool
+	StatCalls  int
 	PathVals   map[string]value
 	Dirs       map[string]bool
 	Events     []FSEvent
@@ -62,9 +66,43 @@ func pathKey(v value) string {
 	case string:
 		return p
 	case Sym:
-		return p.T
+		return canonConcat(p.T)
 	}
 	return fmt.Sprint(v)
+}
+
+// canonConcat flattens nested str.++ applications and merges adjacent string
+// literals, so that paths built by different nestings of Join get one key.
+func canonConcat(term string) string {
+	sx, err := smt.ParseSexp(term)
+	if err != nil || sx == nil {
+		return term
+	}
+	var parts []string
+	var walk func(x *smt.Sexp)
+	walk = func(x *smt.Sexp) {
+		if x.IsL && len(x.List) > 0 && x.List[0].Atom == "str.++" {
+			for _, c := range x.List[1:] {
+				walk(c)
+			}
+			return
+		}
+		t := x.String()
+		if n := len(parts); n > 0 && strings.HasPrefix(t, "\"") && strings.HasPrefix(parts[n-1], "\"") {
+			a, ok1 := smt.ParseStrLit(parts[n-1])
+			b, ok2 := smt.ParseStrLit(t)
+			if ok1 && ok2 {
+				parts[n-1] = smt.StrLit(a + b)
+				return
+			}
+		}
+		parts = append(parts, t)
+	}
+	walk(sx)
+	if len(parts) == 1 {
+		return parts[0]
+	}
+	return "(str.++ " + strings.Join(parts, " ") + ")"
 }
 
 func (m *FSModel) event(op string, p, dst value, note string) {
@@ -108,7 +146,11 @@ type dirEntry struct {
 	isDir bool
 }
 
-type fileInfo struct{ isDir bool }
+type fileInfo struct {
+	isDir bool
+	size  int64
+	mode  uint32
+}
 
 var (
 	dirEntryType = newOpaqueNamed("verif.DirEntry")
@@ -131,9 +173,25 @@ func init() {
 		switch name {
 		case "IsDir":
 			return func(fr *frame, args []value) value { return d.isDir }
+		case "Size":
+			return func(fr *frame, args []value) value { return d.size }
+		case "Mode":
+			return func(fr *frame, args []value) value { return d.mode }
 		}
 		return nil
 	}
+}
+
+// lookup returns the file at path as the run would currently see it.
+func (m *FSModel) lookup(p value) *FSNode {
+	k := pathKey(p)
+	if n, ok := m.Nodes[k]; ok {
+		return n
+	}
+	if m.Removed[k] {
+		return nil
+	}
+	return m.Prior[k]
 }
 
 func bytesOf(v value) []byte {
@@ -317,6 +375,7 @@ func InstallFSStubs(e *Engine, srcRoot string) {
 			return fsErr("Remove", m.Step-1)
 		}
 		delete(m.Nodes, pathKey(args[0]))
+		m.Removed[pathKey(args[0])] = true
 		m.event("remove", args[0], nil, "")
 		return iface{}
 	}
@@ -359,6 +418,14 @@ func InstallFSStubs(e *Engine, srcRoot string) {
 	ic["os.Stat"] = func(ps *PathState, fr *frame, fn *ssa.Function, args []value) value {
 		m := model(ps)
 		m.event("stat", args[0], nil, "")
+		if n := m.lookup(args[0]); n != nil {
+			return tuple{iface{t: fileInfoType, v: &fileInfo{isDir: false, size: int64(len(n.Data)), mode: n.Mode}}, iface{}}
+		}
+		if len(m.Prior) > 0 && m.StatCalls > 0 {
+			// only the first Stat of a run addresses the base directory
+			return tuple{iface{}, errNotExist}
+		}
+		m.StatCalls++
 		switch m.BaseClass {
 		case 0:
 			return tuple{iface{}, errNotExist}
@@ -368,6 +435,23 @@ func InstallFSStubs(e *Engine, srcRoot string) {
 			return tuple{iface{t: fileInfoType, v: &fileInfo{isDir: false}}, iface{}}
 		}
 		return tuple{iface{}, NewErr("fs", "fs:stat-denied", "permission denied", nil)}
+	}
+	ic["os.Lstat"] = ic["os.Stat"]
+	ic["os.ReadFile"] = func(ps *PathState, fr *frame, fn *ssa.Function, args []value) value {
+		m := model(ps)
+		m.event("stat", args[0], nil, "readfile")
+		n := m.lookup(args[0])
+		if n == nil {
+			return tuple{[]value(nil), errNotExist}
+		}
+		out := make([]value, len(n.Data))
+		for i, b := range n.Data {
+			out[i] = b
+		}
+		return tuple{out, iface{}}
+	}
+	ic["bytes.Equal"] = func(ps *PathState, fr *frame, fn *ssa.Function, args []value) value {
+		return string(bytesOf(args[0])) == string(bytesOf(args[1]))
 	}
 	ic["os.IsNotExist"] = func(ps *PathState, fr *frame, fn *ssa.Function, args []value) value {
 		e := RootErr(args[0])
@@ -494,7 +578,7 @@ func InstallFSStubs(e *Engine, srcRoot string) {
 
 // NewFSModel creates the model for one path.
 func NewFSModel(ps *PathState, mode, srcRoot string) *FSModel {
-	m := &FSModel{Nodes: map[string]*FSNode{}, PathVals: map[string]value{}, Dirs: map[string]bool{}, Faulted: -1, SrcRoot: srcRoot, Mode: mode, AbsOf: map[string]value{}}
+	m := &FSModel{Prior: map[string]*FSNode{}, Removed: map[string]bool{}, Nodes: map[string]*FSNode{}, PathVals: map[string]value{}, Dirs: map[string]bool{}, Faulted: -1, SrcRoot: srcRoot, Mode: mode, AbsOf: map[string]value{}}
 	if mode == "fault" {
 		m.CrashAt = ps.Fresh(SInt, "crashAt")
 		m.FaultAt = ps.Fresh(SInt, "faultAt")
@@ -547,3 +631,12 @@ func (ps *PathState) Query(term string) (string, map[string]string) {
 }
 
 func JoinPath(parts ...value) value { return joinPath(parts) }
+
+// SetPrior registers a file that exists before the run.
+func (m *FSModel) SetPrior(path value, data []byte, mode uint32) {
+	m.Prior[pathKey(path)] = &FSNode{Content: "full:" + hashBytes(data), Mode: mode, Data: data}
+	m.PathVals[pathKey(path)] = path
+}
+
+// Effective returns the file at path after the run (written or prior).
+func (m *FSModel) Effective(path value) *FSNode { return m.lookup(path) }
